@@ -33,6 +33,36 @@ fn read_zipped_file(reader: &mut ZipArchive<File>, file_name: &str) -> Result<St
     Ok(contents)
 }
 
+/// Parse a BDD from its string dump (`|var,low,high|...|`), checking that the dump is well-formed
+/// and fits a symbolic context with `num_vars` variables. Corrupted dumps give an error (the parser
+/// of the BDD library panics on them, or builds a BDD with dangling links).
+fn parse_bdd_string(bdd_string: &str, num_vars: u16) -> Result<Bdd, String> {
+    let data: String = bdd_string.chars().filter(|c| !c.is_whitespace()).collect();
+    let nodes: Vec<&str> = data.split('|').filter(|s| !s.is_empty()).collect();
+    if nodes.is_empty() {
+        return Err("no BDD nodes found".to_string());
+    }
+    for (i, node) in nodes.iter().enumerate() {
+        let items: Vec<&str> = node.split(',').collect();
+        if items.len() != 3 {
+            return Err(format!("node `{node}` does not have the form `var,low,high`"));
+        }
+        let var = items[0].parse::<u16>().map_err(|e| e.to_string())?;
+        let low = items[1].parse::<usize>().map_err(|e| e.to_string())?;
+        let high = items[2].parse::<usize>().map_err(|e| e.to_string())?;
+        // the first two nodes are the terminals, all other nodes point to preceding nodes only
+        let valid = if i < 2 {
+            var == num_vars && low == i && high == i
+        } else {
+            var < num_vars && low < i && high < i
+        };
+        if !valid {
+            return Err(format!("node `{node}` is not valid at position {i}"));
+        }
+    }
+    Ok(Bdd::from_string(data.as_str()))
+}
+
 /// Read the individual BDD files in a provided (valid) archive into a map from the strings (file names) to colored sets.
 /// The files must be have the `.bdd` extension.
 pub fn load_bdd_bundle(
@@ -63,7 +93,11 @@ pub fn load_bdd_bundle(
         ))?;
 
         let bdd_string = read_zipped_file(&mut archive, filename.as_str())?;
-        let bdd = Bdd::from_string(bdd_string.as_str());
+        let bdd = parse_bdd_string(
+            bdd_string.as_str(),
+            symbolic_context.bdd_variable_set().num_vars(),
+        )
+        .map_err(|e| format!("File `{filename}` of the archive {archive_path} is corrupted: {e}"))?;
         let set = GraphColoredVertices::new(bdd, symbolic_context);
         loaded_sets.insert(name.to_string(), set);
     }
